@@ -106,7 +106,13 @@ def run(ctx) -> None:
     c19.r19_2(Relabel(ctx, "R03.8"))
     r03_10(ctx)
     r03_13(ctx)
+    r03_14(ctx)
     r03_12(ctx)
+    from . import c07 as _c07
+    from .common import Relabel as _Rel7
+    ctx.rule("R03.15", "every flavour of source is shielded the same way: the internal borrow hands out a new generator whatever it "
+                       "is given (R07.4, shared) - a class-based iterator is not passed on bare where an async generator is wrapped")
+    _c07.r07_4(_Rel7(ctx, "R03.15"))
     from . import c06
     from .common import Relabel as _Rel
     ctx.rule("R03.11", "what an operation raises or returns does not depend on what the source's aclose() returns: no __aexit__ of "
@@ -340,6 +346,51 @@ def awaitify_argument(ctx, rid: str, u: Unit, n: Node) -> None:
     ctx.ok(rid, u, f"`{norm(call)}` wraps a user callable (or an asynchronous library default)", line=getattr(call, "lineno", None))
 
 
+HIGHER_ORDER = {"sorted", "min", "max", "map", "filter", "reduce", "sort", "accumulate", "starmap", "takewhile", "dropwhile",
+                "filterfalse", "groupby", "nlargest", "nsmallest", "merge", "bisect", "insort", "bisect_left", "bisect_right"}
+
+
+def r03_14(ctx, rid: str = "R03.14") -> None:
+    """A synchronous consumer of the standard library (``list.sort(key=...)``, ``sorted``, ``min``, ``map`` ...) calls what it
+    is given and uses the result as it is: handed a user's callable that may be asynchronous - an ``async def``, but also a
+    partial, a lambda returning a coroutine or an object with an async ``__call__`` - it gets coroutines for values."""
+    from asl.values import roles_of_annotation
+    ctx.rule(rid, "a user's callable is never handed to a synchronous higher-order function of the standard library (sort / sorted / "
+                  "min / max / map / filter / reduce / heapq ...): only the library's awaiting code may call it")
+    sites = 0
+    for u in real_units(ctx):
+        cfg = cfg_of(u)
+        for n in cfg.nodes:
+            if n.kind != "call" or n.tag:
+                continue
+            call = n.ast
+            r = ctx.pkg.resolve_expr_global(u.module, call.func)
+            name = r.qual.split(".")[-1] if r.kind in ("builtin", "stdlib") else (
+                call.func.attr if isinstance(call.func, ast.Attribute) and r.kind not in ("lib",) else "")
+            if name not in HIGHER_ORDER or r.kind == "lib":
+                continue
+            if isinstance(call.func, ast.Attribute) and r.kind not in ("builtin", "stdlib"):
+                # a method: only of the library's own plain containers (``items.sort(...)``), not of user objects
+                recv = ctx.vals.expr(u, call.func.value, n)
+                if any(a[0] in ("user", "item", "result") for a in recv):
+                    continue
+            for e in list(call.args) + [k.value for k in call.keywords]:
+                e = e.value if isinstance(e, ast.Starred) else e
+                for a in ctx.vals.expr(u, e, n):
+                    if a[0] != "user" or ":" not in str(a[1]):
+                        continue
+                    owner, _, pname = a[1].partition(":")
+                    ou = ctx.pkg.unit(owner) if ctx.pkg.has_unit(owner) else None
+                    ann = next((p.annotation for p in ou.params() if p.arg == pname), None) if ou is not None else None
+                    if ann is not None and "CALLABLE" in roles_of_annotation(ann) and not ({"ITERABLE", "ITERATOR"} & roles_of_annotation(ann)):
+                        sites += 1
+                        ctx.fail(rid, u, call, f"the user's callable `{pname}` is handed to `{norm(call.func)}`, which calls it "
+                                 "synchronously and uses whatever comes back (a coroutine, for an asynchronous callable that is not an "
+                                 "`async def`)", node=n)
+    if not sites:
+        ctx.ok(rid, "package", "no user callable reaches a synchronous higher-order function")
+
+
 def r03_13(ctx, rid: str = "R03.13") -> None:
     """What awaitify hands out stands for the user's callable: it is called with whatever the callable would be called
     with - positional and keyword arguments alike (``ExitStack.callback(cb, *args, **kwargs)`` binds keyword arguments)."""
@@ -566,6 +617,45 @@ def r03_2(ctx) -> None:
                     ctx.fail("R03.2", u, c, f"iterable parameter `{nm}` is type-tested against the synchronous "
                              f"{sync}: objects that are iterable only through __getitem__ (or sync/async flavours) "
                              f"are treated differently, although aiter() accepts them", line=c.lineno)
+        # ... the same for the *elements* of a ``*iterables`` parameter, wherever the test sits (a comprehension filter):
+        # ``isinstance(it, Sized)`` / ``len(it)`` single out synchronous containers among the arguments
+        if va is not None and "ITERABLE" in roles_of_annotation(va.annotation) and ctx.pkg.canonical(u) not in DIRECT_ITERATION_OK:
+            vsrc = f"{u.short}:{va.arg}"
+            for n in cfg.nodes:
+                if n.kind != "call" or n.tag or not n.ast.args:
+                    continue
+                fname = norm(n.ast.func)
+                if fname not in ("isinstance", "len"):
+                    continue
+                v0 = ctx.vals.expr(u, n.ast.args[0], n)
+                if not any(a[0] in ("user", "item") and str(a[1]).rstrip("[]") == vsrc and str(a[1]) != vsrc for a in v0):
+                    continue
+                if fname == "isinstance" and len(n.ast.args) == 2:
+                    classes = n.ast.args[1].elts if isinstance(n.ast.args[1], ast.Tuple) else [n.ast.args[1]]
+                    if not [k for k in classes if norm(k).split(".")[-1] in SYNC_ABCS]:
+                        continue
+                bad += 1
+                ctx.fail("R03.2", u, n.ast, f"`{norm(n.ast)}` singles out the synchronous (sized) containers among the iterable arguments: "
+                         "a list and an iterator over the same items are treated differently", node=n)
+            # (generator expressions are evaluated lazily and have no nodes of their own in the enclosing CFG)
+            for comp in ast.walk(u.node):
+                if not isinstance(comp, (ast.GeneratorExp, ast.ListComp, ast.SetComp, ast.DictComp)):
+                    continue
+                targets = {g.target.id for g in comp.generators if isinstance(g.iter, ast.Name) and g.iter.id == va.arg
+                           and isinstance(g.target, ast.Name)}
+                if not targets:
+                    continue
+                for c in ast.walk(comp):
+                    if isinstance(c, ast.Call) and norm(c.func) in ("isinstance", "len") and c.args and isinstance(c.args[0], ast.Name) \
+                            and c.args[0].id in targets:
+                        if norm(c.func) == "isinstance" and len(c.args) == 2:
+                            classes = c.args[1].elts if isinstance(c.args[1], ast.Tuple) else [c.args[1]]
+                            if not [k for k in classes if norm(k).split(".")[-1] in SYNC_ABCS]:
+                                continue
+                        if isinstance(comp, ast.GeneratorExp):
+                            bad += 1
+                            ctx.fail("R03.2", u, c, f"`{norm(c)}` singles out the synchronous (sized) containers among the iterable "
+                                     "arguments: a list and an iterator over the same items are treated differently", line=c.lineno)
         if not bad:
             ctx.ok("R03.2", u, f"iterable parameter(s) {sorted(iter_params)} only reach aiter / ScopedIter / library tools")
 
@@ -680,7 +770,9 @@ def r03_3(ctx) -> None:
     va = a.node.args.vararg.arg if a.node.args.vararg else None
     kw = a.node.args.kwarg.arg if a.node.args.kwarg else None
     if init is None or va is None or kw is None:
-        raise AnalysisError("_core.Awaitify: __init__ / (*args, **kwargs) signature not found (anchor moved)")
+        ctx.fail("R03.3", a, "__call__", "the awaitify wrapper takes (*args, **kwargs): it stands for a callable that is called with "
+                 "whatever its caller passes (R03.13)")
+        return
     # field roles from __init__: the field bound to the parameter is the wrapped callable, the one bound to None the cache
     wrapped = cache = None
     for st in own_nodes(init.node):
